@@ -89,6 +89,9 @@ CLAIMED = {
  "C30": ("lockset on the highlight cache (CACHE-LOCK), control-dependence check of the late store on cache.code == captured code (STALE-GUARD), literal/def-use agreement (GET-CONSISTENT)",
          "Structural lemma for the 'never stale' clause: a late result is stored only if, under the lock, the cached code still equals the code it was computed for; the synchronous path caches code and result together. That highlighted segments concatenate back to the code is not decided.",
          "trusts go/ssa"),
+ "C44": ("guard-dominance check on every value decoded from the wire in pkg/lsp (WIRE-GUARD), goroutine reachability / who-may rule on the documents map (HANDLER-SYNC), def-use agreement of the text used for parsing, completing, storing and converting positions (TEXT-AGREE), def-use and loop-path check of the published diagnostics (DIAG-SOURCE)",
+         "Structural necessary conditions: decoded pointers, slices, strings, interfaces and numbers are dereferenced, indexed, asserted or used as an index only under a dominating check (the server has no recover); the documents map is touched only by the synchronous handlers; one request uses one text for parsing, completion, storage and every position conversion, and the tree searched belongs to that text; diagnostics are exactly the converted ranges of the unpacked parse errors of that text, one per entry, published under the document's URI. The UTF-16/CRLF arithmetic of walkString and its round trip, and the content of hover/completion answers, are not decided.",
+         "trusts go/ssa, json.Unmarshal's zero-value behaviour for absent members and jsonrpc2's one-request-at-a-time handler calls"),
 }
 
 NOT_APPLICABLE = {
@@ -108,7 +111,6 @@ NOT_APPLICABLE = {
  "C38": "getopt semantics are parsing semantics over argument lists",
  "C41": "string/regex algebraic laws are value-level identities",
  "C43": "completion correctness needs evaluation of the inserted text and depends on the file system",
- "C44": "LSP position mapping is arithmetic over UTF-16/CRLF; the crash-freedom clause over well-formed requests reduces to it",
 }
 
 PENDING = "the design (DESIGN.md section 3) names structural rules for this property, but its checker is not built yet, so it is not claimed"
